@@ -37,12 +37,12 @@ Theorem log_entry_of_commit_text : forall st id tree parent na ea ta oa nc ec tc
   get_kind st KCommit id
   = Some (commit_text tree (option_map hex parent) (sign_string na ea ta oa) (sign_string nc ec tc oc) msg) ->
   length tree = 20%nat -> (forall p, parent = Some p -> length p = 20%nat) ->
-  sign_ok na ea ta oa -> sign_ok nc ec tc oc -> msg_ok msg ->
+  sign_ok na ea ta oa -> sign_ok nc ec tc oc ->
   log_entry st id = Some (hex id, Some (mkSign na ea ta oa), msg).
 Proof.
-  intros st id tree parent na ea ta oa nc ec tc oc msg Hg Ht Hp Ha Hc Hm.
+  intros st id tree parent na ea ta oa nc ec tc oc msg Hg Ht Hp Ha Hc.
   unfold log_entry, get_commit. rewrite Hg.
-  rewrite (commit_roundtrip tree parent na ea ta oa nc ec tc oc msg Ht Hp Ha Hc Hm). reflexivity.
+  rewrite (commit_roundtrip tree parent na ea ta oa nc ec tc oc msg Ht Hp Ha Hc). reflexivity.
 Qed.
 
 (* the commit a successful `commit` wrote shows the configured identity, the
@@ -53,7 +53,6 @@ Theorem log_entry_after_commit : forall e c msg w root subs,
   (forall d, In d (subs ++ [root]) -> (lenN d < 2 ^ 63)%N) ->
   (lenN (commit_data e c msg w root) < 2 ^ 63)%N ->
   sign_ok (user_name (x_l c) (x_g c)) (user_email (x_l c) (x_g c)) (e_time e) (e_off e) ->
-  msg_ok msg ->
   (forall tip, tip_of w = Some tip -> length tip = 20%nat) ->
   head_ok w c ->
   log_entry (w_objs (after_commit e c msg w root subs)) (commit_id e c msg w root)
@@ -61,8 +60,8 @@ Theorem log_entry_after_commit : forall e c msg w root subs,
           Some (mkSign (user_name (x_l c) (x_g c)) (user_email (x_l c) (x_g c)) (e_time e) (e_off e)),
           msg).
 Proof.
-  intros e c msg w root subs Hv Hw Hsz Hszc Hs Hm Htip Hh.
-  destruct (commit_spec_ok e c msg w root subs Hv Hw Hsz Hszc Hs Hm Htip Hh) as (_ & Hpost & _).
+  intros e c msg w root subs Hv Hw Hsz Hszc Hs Htip Hh.
+  destruct (commit_spec_ok e c msg w root subs Hv Hw Hsz Hszc Hs Htip Hh) as (_ & Hpost & _).
   unfold log_entry. rewrite (cp_commit _ _ _ _ _ _ _ Hpost). reflexivity.
 Qed.
 
@@ -73,7 +72,6 @@ Corollary log_entry_after_commit_for_ever : forall e c msg w root subs h,
   (forall d, In d (subs ++ [root]) -> (lenN d < 2 ^ 63)%N) ->
   (lenN (commit_data e c msg w root) < 2 ^ 63)%N ->
   sign_ok (user_name (x_l c) (x_g c)) (user_email (x_l c) (x_g c)) (e_time e) (e_off e) ->
-  msg_ok msg ->
   (forall tip, tip_of w = Some tip -> length tip = 20%nat) ->
   head_ok w c ->
   w_coll (run h (after_commit e c msg w root subs)) = false ->
@@ -82,7 +80,7 @@ Corollary log_entry_after_commit_for_ever : forall e c msg w root subs h,
           Some (mkSign (user_name (x_l c) (x_g c)) (user_email (x_l c) (x_g c)) (e_time e) (e_off e)),
           msg).
 Proof.
-  intros e c msg w root subs h Hv Hw Hsz Hszc Hs Hm Htip Hh Hc.
+  intros e c msg w root subs h Hv Hw Hsz Hszc Hs Htip Hh Hc.
   apply log_entry_stable; [|exact Hc].
   apply log_entry_after_commit; assumption.
 Qed.
